@@ -1103,5 +1103,74 @@ func (w *World) loadNilRegion() (*ssa.Function, *ssa.BasicBlock) {
 			}
 		}
 	}
-	return nilFn, nilRegion
+	if nilRegion != nil {
+		return nilFn, nilRegion
+	}
+	// no nil test: the loader loop returns from inside on success and the code after the loop is
+	// the "no loader has it" region (`for … { if ok { return tmpl, nil } }; return nil, notFound`)
+	for _, part := range partList {
+		var call *ssa.BasicBlock
+		instrsOf(part, func(in ssa.Instruction) {
+			if c, ok := in.(ssa.CallInstruction); ok && c.Common().IsInvoke() && c.Common().Method.Name() == "Load" && isNamed(c.Common().Value.Type(), twigPath, "Loader") {
+				call = in.Block()
+			}
+		})
+		if call == nil {
+			continue
+		}
+		reach := func(from *ssa.BasicBlock) map[*ssa.BasicBlock]bool {
+			seen := map[*ssa.BasicBlock]bool{}
+			var dfs func(b *ssa.BasicBlock)
+			dfs = func(b *ssa.BasicBlock) {
+				for _, sb := range b.Succs {
+					if !seen[sb] {
+						seen[sb] = true
+						dfs(sb)
+					}
+				}
+			}
+			dfs(from)
+			return seen
+		}
+		fromCall := reach(call)
+		if !fromCall[call] {
+			continue // not in a loop
+		}
+		var header *ssa.BasicBlock
+		for b := call; b != nil; b = b.Idom() {
+			if fromCall[b] && reach(b)[call] {
+				header = b
+			}
+		}
+		if header == nil {
+			continue
+		}
+		inLoop := func(b *ssa.BasicBlock) bool { return fromCall[b] && reach(b)[header] }
+		// success inside the loop?
+		success := false
+		ei := errResultIndex(part.Signature)
+		for _, b := range part.Blocks {
+			if !call.Dominates(b) {
+				continue // a success return of this walk lies behind the Load call of the same pass
+			}
+			if len(b.Instrs) == 0 {
+				continue
+			}
+			if ret, ok := b.Instrs[len(b.Instrs)-1].(*ssa.Return); ok {
+				res := retResults(ret)
+				if ei >= 0 && ei < len(res) && isNilConst(res[ei]) {
+					success = true
+				}
+			}
+		}
+		if !success {
+			continue
+		}
+		for _, sb := range header.Succs {
+			if !inLoop(sb) {
+				return part, sb
+			}
+		}
+	}
+	return nilFn, nil
 }
